@@ -32,6 +32,15 @@ impl HashCtx {
                 let inp = match inp { Some(v) => v, None => return Some("bad-op".into()) };
                 Some(fr_hex(&rln::hashers::poseidon_hash(&inp)))
             }
+            // the first-round constants c[0..t] of the permutation of width t (inputs + 1), for generating inputs that make a
+            // state lane exactly zero after the first constant addition
+            "poseidon_c" => {
+                let t = parse_usize(w[1])?;
+                let row = rln::hashers::ROUND_PARAMS.iter().find(|r| r.0 == t)?;
+                let pz = Poseidon::<Fr>::from(&[*row]);
+                let c = &pz.get_parameters()[0].c;
+                Some(c[..t].iter().map(fr_hex).collect::<Vec<_>>().join(" "))
+            }
             // zerokit_utils::poseidon::Poseidon::<Fr>::from(&[(t, rf, rp, skip)]).hash(inp)
             "uposeidon" => {
                 let p: Option<Vec<usize>> = w[1..5].iter().map(|s| parse_usize(s)).collect();
@@ -58,7 +67,13 @@ impl HashCtx {
                 let ib = ffi_buf(&b);
                 let mut ob = ffi::Buffer { ptr: std::ptr::null(), len: 0 };
                 let ok = ffi::poseidon_hash(&ib, &mut ob);
-                Some(if ok { format!("ok {}", show_bytes(&ffi_read(&ob))) } else { "err".into() })
+                // and "in place": one Buffer struct as input and output
+                let mut io = ffi_buf(&b);
+                let p: *mut ffi::Buffer = &mut io;
+                let ok2 = ffi::poseidon_hash(p as *const ffi::Buffer, p);
+                let r1 = if ok { format!("ok {}", show_bytes(&ffi_read(&ob))) } else { "err".to_string() };
+                let r2 = if ok2 { format!("ok {}", show_bytes(&ffi_read(&io))) } else { "err".to_string() };
+                Some(if r1 == r2 { r1 } else { format!("IN-PLACE-DIFFERS {} vs {}", r2, r1) })
             }
             "h2f" => {
                 let b = parse_bytes(w[1])?;
@@ -98,7 +113,13 @@ impl HashCtx {
                 let ib = ffi_buf(&b);
                 let mut ob = ffi::Buffer { ptr: std::ptr::null(), len: 0 };
                 let ok = ffi::hash(&ib, &mut ob);
-                Some(if ok { format!("ok {}", show_bytes(&ffi_read(&ob))) } else { "err".into() })
+                // and "in place": one Buffer struct as input and output
+                let mut io = ffi_buf(&b);
+                let p: *mut ffi::Buffer = &mut io;
+                let ok2 = ffi::hash(p as *const ffi::Buffer, p);
+                let r1 = if ok { format!("ok {}", show_bytes(&ffi_read(&ob))) } else { "err".to_string() };
+                let r2 = if ok2 { format!("ok {}", show_bytes(&ffi_read(&io))) } else { "err".to_string() };
+                Some(if r1 == r2 { r1 } else { format!("IN-PLACE-DIFFERS {} vs {}", r2, r1) })
             }
             "keccak" => {
                 use tiny_keccak::{Hasher, Keccak};
